@@ -269,7 +269,6 @@ func runHandshaker(c *Ctx) {
 	}
 }
 
-
 // The same on real sockets: silent raw TCP peers keep connecting while the socket is closed.  A connection the accept
 // loop took just before Close and handed to the (already closed) handshaker afterwards must be closed like every
 // other one: after Socket.Close every peer sees end-of-stream.
